@@ -6,7 +6,7 @@ from rules.common import same, xquotes
 from astlib import find_all, find_first, show, show_pat, quotes_in, tok_text, method_chain, walk, tok_find_seq, tok_walk, norm
 
 EXPLANATION = (
-    "Static structural analysis of the code-generation templates (syn facts of create_locales_enum and of the run-time "
+    "Primary clause (R0): create_locales_enum is interpreted abstractly (rules/absint.py; nothing compiled or run) to its token text for a locale list with regional, right-to-left and non-canonically spelled names, and every generated table is read back: a variant must be paired with its own configured name everywhere. The structural clause R1 is used only when the generator leaves the interpreter's fragment. Static structural analysis of the code-generation templates (syn facts of create_locales_enum and of the run-time "
     "helpers); nothing is expanded or executed. Decided clauses: (R1) every per-locale table of the generated enum (variants, "
     "as_str, from_str, ICU locale constants, as_icu_locale, direction, get_all) is produced from the configured locale list "
     "with no filter/skip/take/rev/dedup, so each locale appears exactly once and in configuration order (default first by "
@@ -459,7 +459,7 @@ def run(ctx):
 
 
 MANIFEST_ENTRY = {
-    "technique": "static analysis: syn inspection of the quote! templates and iterator chains of create_locales_enum (table completeness/order, inverse pairing of as_str/from_str, strict fallback), MIR return-value summaries (py/mirsum.py) of every ScopedLocale forwarder",
-    "level_text": "Structural: the generated enum exists only as token templates; the rule extracts, on each run, where every per-locale table comes from and how its arms pair identifier and name, and requires the round-trip shape (inverse arms, strict fallback, as_str-based serde/Display). This holds for every configured locale set; no macro expansion is run.",
+    "technique": "static analysis: abstract evaluation (rules/absint.py) of create_locales_enum to token text for a locale list with regional, right-to-left and non-canonically spelled names, the generated tables read back one by one; evaluation of LocaleVisitor; MIR return-value summaries (py/mirsum.py) of every ScopedLocale forwarder; structural syn rule as fallback",
+    "level_text": "Finite abstract evaluation of the generator: each generated table (as_str, from_str, ICU constant, direction, get_all, serde / Display) must pair a variant with its own configured name, from_str must be the exact inverse with an Err(()) fallback. The forwarders of ScopedLocale are decided from MIR summaries. No macro expansion is run.",
     "level_note": "Trusted: quote!/syn, icu locale!(), leptos-use FromToStringCodec. Not decided: ICU parsing of a concrete name, CLDR direction data.",
 }
